@@ -147,6 +147,10 @@ class Batch:
                 continue
             open(os.path.join(self.dir, "src", "m", "m%d.rs" % m.idx), "w", newline="", encoding="utf-8").write(m.rs)
             open(os.path.join(self.dir, "src", "m", "m%d.wgsl" % m.idx), "w", newline="", encoding="utf-8").write(m.wgsl)
+            for rel, text in getattr(m, "extra_files", {}).items():
+                fp = os.path.join(self.dir, "src", "m", rel)
+                os.makedirs(os.path.dirname(fp), exist_ok=True)
+                open(fp, "w", newline="", encoding="utf-8").write(text)
             main.append('#[path = "m/m%d.rs"] pub mod m%d;' % (m.idx, m.idx))
             for pn, src in m.probes.items():
                 if pn in m.probe_errors:
